@@ -13,7 +13,7 @@
 //!   a thread-local seed instead of `RandomState`;
 //! * [`Snapshot`] — the complete internal state of a graph in plain types.
 
-#![allow(missing_docs, clippy::all, clippy::pedantic, clippy::nursery)]
+#![allow(missing_docs, unreachable_patterns, clippy::all, clippy::pedantic, clippy::nursery)]
 
 use crate::{Hex, Label, Persistence, Sodg};
 
@@ -503,10 +503,12 @@ impl<const N: usize> Sodg<N> {
                     Persistence::Empty => 0,
                     Persistence::Stored => 1,
                     Persistence::Taken => 2,
+                    _ => 3,
                 },
                 data: match &vtx.data {
                     Hex::Vector(v) => v.clone(),
                     Hex::Bytes(a, n) => a[..(*n).min(a.len())].to_vec(),
+                    _ => Vec::new(),
                 },
                 heap: matches!(vtx.data, Hex::Vector(_)),
                 edges: vtx.edges.iter().map(|(a, v)| (*a, *v)).collect(),
